@@ -36,6 +36,8 @@ def run(chk, tier):
         cr.check_from_registry(chk, prog, cfg, rule="R11.5")
         cr.check_builder_ops(chk, prog, cfg, rule="R12.2")
         cr.check_finish(chk, prog, cfg, rule="R1.6")
+        from . import c10
+        c10.check_config(chk, prog, cfg)      # retain: the returned map is a renaming under which every kept entry is its original
         c02.check_config(chk, prog, cfg)
         ci.check_metatype_new(chk, prog, cfg, rule="R5.1")
         ci.check_identities(chk, prog, cfg)
